@@ -117,7 +117,10 @@ example : (3 : Nat) ≤ 3 ∨ 77 % 2 = 0 ∨ 2 ^ 512 ≤ 77 := Or.inl (by decide
 product on, the term `g^p_prev − 1` of the prime `p_prev > b1` at which stage 1 stopped (that prime was never part of the
 stage-1 exponent): the walk is the loop `walkOuter` started with `product = g^p_prev − 1`, `products = [1]`.  A walk
 started at `product = 1` (seeded change C16-3) does not satisfy this equation; the request family `walk/stop-prime`
-shows the difference on the real code. -/
+shows the difference on the real code.
+This equation is the definitional unfolding of `walk` (it restates the model; on its own it is meaningful only through
+the K stream).  The content — `gcd(m, g^p_prev − 1)` divides the running product from the first block on — is
+`pm1_walk_stop_prime_found` / `pm1_walk_stop_prime_kept` (Props/C16Pm1b.lean), which use this unfolding. -/
 theorem pm1_walk_includes_stop_prime (n b2 : Nat) (pp : Nat → Bool) (m g pPrev : Nat) (blk : List Nat)
     (ps : Ymq.Primes.PrimeSieve) (factors : List Nat) (nred : Nat) :
     walk n b2 pp m g pPrev blk ps factors nred =
